@@ -729,7 +729,7 @@ def log_alphabets(tier):
 
 def gen_log(tier, seed):
     al = log_alphabets(tier)
-    combos = [(0, "long"), (1, "short")] if tier == "quick" else [(0, "long"), (1, "short"), (0, "short"), (1, "long")]
+    combos = [(0, "long"), (1, "short")] if tier == "quick" else [(0, "long"), (1, "short"), (0, "short")]
     for layout, pre in combos:
         yield {"root": [], "depth": 0, "layout": layout, "pre": pre, "tier": tier, "seed": seed}  # no section at all
         for ev in al[0]:
@@ -869,7 +869,7 @@ def subs(tier, seed):
             bounds={"depth": 3 if q else 4, "alphabet": 4}),
         Sub("C19.log", gen_log, run_log,
             rule="explicit-state search over section-append histories: event = (noise before the section from 11 kinds incl. echoed multi-line/unbalanced quotes, rows 1-3, columns 2-4), depth 3 "
-                 "(events per level quick 44/9/2, thorough 99/21/4), preamble x layout combinations 2 (quick) / 4; every state is closed with 6 (quick) / 8 tails "
+                 "(events per level quick 44/9/2, thorough 99/21/4), preamble x layout combinations 2 (quick) / 3; every state is closed with 6 (quick) / 8 tails "
                  "(end of file, wall-time line, timing noise, incomplete trailing sections of 0-4 rows) and read back: count, names, every value",
             bounds={"depth": 3}),
     ]
